@@ -676,6 +676,68 @@ def run_siblings(c):
     return r
 
 
+def lowfi_cases(tier):
+    out = []
+    for model in ('simple', '6node'):
+        for grav in (True, False):
+            for structure in ('bundle', 'multi'):
+                for flow in (('turb',) if tier == 'quick' else FLOWS):
+                    for bundle in (('w3',) if tier == 'quick' else ('w2', 'w3', 'b3')):
+                        out.append(dict(probe='lowfi', model=model, gravity=grav, structure=structure, flow=flow,
+                                        bundle=bundle, friction='CTD', step_case='limit', grid_case='none',
+                                        grid_model='K'))
+    return out
+
+
+def run_lowfi(c):
+    """an assembly run with use_low_fidelity_model next to the same assembly pin-resolved: parts non-negative,
+    total = friction + grid + gravity = sum of regions, gravity part = rho g L over the WHOLE core length
+    (0 with gravity off) for both, friction of the low-fidelity bundle = f L rho v^2 / (2 De) with the
+    friction factor, velocity and hydraulic diameter the region publishes"""
+    r = new_result()
+    V = r['violations']
+    scn, flow = build_scn(c, None, [])
+    low = dict(scn['types']['A'])
+    low['use_low_fidelity_model'] = True
+    # (the documented key; region_unrodded.make reads the undocumented key `model` instead, so both values
+    # build the single-node model - see DESIGN.md 11.2)
+    low['low_fidelity_model'] = c['model']
+    scn['types']['B'] = low
+    spec = scn['power']['asm']['1']
+    scn['assign'] = [['A', 1, 1, {'flowrate': flow}], ['B', 2, 1, {'flowrate': flow}], ['B', 2, 2, {'flowrate': 0.6 * flow}]]
+    scn['power']['asm'] = {'1': dict(spec), '2': dict(spec), '3': dict(spec)}
+    with S.Built(scn) as b:
+        rx = _reactor(b)
+        stat = [[region_static(reg) for reg in a.region] for a in rx.assemblies]
+        rx.temperature_sweep()
+        rho = float(dassh_density())
+        gv = rho * 9.80665 * L if c['gravity'] else 0.0
+        regs, bi = bounds(c)
+        for ai, a in enumerate(rx.assemblies):
+            parts = {'friction': 0.0, 'spacer_grid': 0.0, 'gravity': 0.0}
+            for reg in a.region:
+                for k, x in reg._pressure_drop.items():
+                    parts[k] += float(x)
+            fr = sum(f * (z1 - z0) * rho * v * v / (2.0 * de) for (f, v, de, ar), (z0, z1) in zip(stat[ai], regs))
+            sc = dict(c, asm=int(a.id), kind_of_assembly='low-fidelity' if ai else 'pin bundle')
+            for nm, got, want in (('gravity', parts['gravity'], gv), ('friction', parts['friction'], fr),
+                                  ('total', float(a.pressure_drop), fr + gv),
+                                  ('regions', sum(float(reg.pressure_drop) for reg in a.region), fr + gv)):
+                if abs(got - want) > TOL * max(abs(want), 1e-9) + (1e-9 if want == 0.0 else 0.0):
+                    V.append(violation('lowfi-' + nm, sc, '%s part of the pressure drop of assembly %d (%s) differs from '
+                                       'its closed form' % (nm, a.id, sc['kind_of_assembly']), got, want,
+                                       TOL * max(abs(want), 1e-9),
+                                       site='region_unrodded.py' if ai else 'region_rodded.py'))
+            if min(parts.values()) < 0.0:
+                V.append(violation('lowfi-negative-part', sc, 'negative pressure drop part', parts, '>= 0'))
+            r['states'] += len(rx.z)
+        r['transitions'] = (len(rx.z) - 1) * 3
+    r['traces'] = 1
+    r['nontrivial'] = True
+    r['outcome'] = 'ok' if not V else 'violation'
+    return r
+
+
 def dassh_density():
     import dassh
     return dassh.Material(COOLANT).density
@@ -700,6 +762,7 @@ def main(run):
     res = run.explore('sweep', cs, run_case, budget_s=120, chunksize=4)
     cross_step(run, cs, res)
     run.explore('siblings', sibling_cases(run.tier), run_siblings, budget_s=300, chunksize=1)
+    run.explore('lowfi', lowfi_cases(run.tier), run_lowfi, budget_s=300, chunksize=1)
     run.notes['worst_rel_residual'] = max([x['info']['worst_rel_residual'] for x in res if x.get('info')] or [0.0])
     # vacuity
     need = [('step_used', 'user-step-honoured'), ('step_used', 'user-step-ignored'),
@@ -718,7 +781,11 @@ def replay(body):
     from ..run import guarded
     sc = dict(body['scenario'])
     sc.pop('ref_step_case', None)
-    r = guarded(run_siblings if body.get('part') == 'siblings' else run_case, sc, 600)
+    for k in ('asm', 'kind_of_assembly'):
+        if sc.get('probe') == 'lowfi':
+            sc.pop(k, None)
+    fn = run_lowfi if sc.get('probe') == 'lowfi' else (run_siblings if body.get('part') == 'siblings' else run_case)
+    r = guarded(fn, sc, 600)
     for v in r['violations']:
         print('VIOLATION property=C14 replay=(inline) kind=%s %s observed=%s expected=%s'
               % (v['kind'], v['what'], v.get('observed'), v.get('expected')))
